@@ -179,7 +179,8 @@ def build_stream(sc, repo, only_conn=None):
             st.steps.append(('line', text, produced))
     W.apply_intents(w, sc['intents'], hook)
     body = '\n'.join(t for t, _ in st.lines)
-    if st.lines and not cfg.get('nonewline', False):
+    if st.lines and (not cfg.get('nonewline', False) or st.lines[-1][0] == ''):
+        # (an empty last line without its newline would not exist at all)
         body += '\n'
     st.data = body.encode('utf-8')
     st.dialect = dialect
